@@ -526,4 +526,3 @@ brk("c19_detached_task_in_empty_context", [E("context.tasks.TaskGroupContext.run
 brk("c19_trial_rendering", [E(f"{SMx}.log", lambda n: isinstance(n, ast.Expr) and "self._logger.log" in U(n), before("if args:" + NL + "    try:" + NL + "        message % args" + NL + "    except (TypeError, ValueError):" + NL + "        return"))], {"C19": ["C19.5"]})
 ben("c06_optional_group_argument", [E("context.tasks.TaskGroupContext.__init__", lambda n: isinstance(n, ast.FunctionDef), lambda s: s.replace("def __init__(\n        self,\n    )", "def __init__(\n        self,\n        group: TaskGroup | None = None,\n    )").replace("self._group: TaskGroup = TaskGroup()", "self._group: TaskGroup = group if group is not None else TaskGroup()"))], ["C06", "C07", "C02"])
 ben("c17_assert_restates_registration", [E("utils.queue.AsyncQueue.__anext__", stmt("self._waiting = None"), before("assert self._waiting is waiting"))], ["C17"])
-brk("c17_assert_on_unrelated_state", [E("utils.queue.AsyncQueue.__anext__", stmt("self._waiting = None"), before("assert not self._queue"))], {"C17": ["C17.6"]}, note="an assertion that can fire (elements enqueued meanwhile) skips the cleanup")
